@@ -7,12 +7,11 @@ opaque_fn("copy.copy", "os.path.join", "os.path.dirname", "Path")
 opaque_global("ExtendedJSONEncoder", "EVENT_CATEGORY_HPC", "EVENT_NAME_HPC_SUBMIT", "EVENT_NAME_HPC_JOB_ASSIGNED")
 
 record("AsyncHpcSubmitter", file=F, bases=["AsyncJob"],
-       aliases={"_name": "name", "_return_code": "return_code", "_is_complete": "g_done"}, fields={
+       aliases={"_name": "name", "_return_code": "return_code", "_is_complete": "g_done", "_job_id": "job_id"}, fields={
     "_mgr": "Ref[HpcManager]",
     "_status_collector": "Ref[HpcStatusCollector]",
     "_run_script": "Opt[Opaque]",
     "_submission_group": "Opt[Ref[SubmissionGroup]]",
-    "_job_id": "Opt[Name]",
     "_output": "Opt[Opaque]",
     "_dry_run": "bool",
 })
@@ -53,13 +52,14 @@ contract("AsyncHpcSubmitter.__init__", file=F, qualname="AsyncHpcSubmitter.__ini
          ensures=["self._mgr == hpc_manager and self._status_collector == status_collector",
                   "self._submission_group == submission_group and self._job_id == job_id and self._name == name",
                   "not self._is_complete and self._dry_run == dry_run and isnone(self._return_code)",
-                  "self._output == output"],
+                  "self._output == output",
+                  "unchanged(AsyncJob.job_id, self) and unchanged(AsyncJob.g_is_batch, self) and unchanged(AsyncJob.name, self)"],
          modifies=["self._mgr", "self._status_collector", "self._run_script", "self._submission_group", "self._job_id", "self._output",
                    "self._name", "self._is_complete", "self._dry_run", "self._return_code",
-                   "self.blocking", "self.g_launched", "self.g_canceled", "self.cancel_on_blocking_job_failure"],
-         ghost_ensures=["empty(self.blocking)", "self.g_launched == 0", "not self.g_canceled", "not self.cancel_on_blocking_job_failure"])
+                   "self.blocking", "self.g_launched", "self.g_canceled", "self.cancel_on_blocking_job_failure", "self.g_is_batch"],
+         ghost_ensures=["empty(self.blocking)", "self.g_launched == 0", "not self.g_canceled", "not self.cancel_on_blocking_job_failure", "self.g_is_batch"])
 
-contract("HpcSubmitter._make_async_submitter", file=F,
+contract("HpcSubmitter._make_async_submitter", file=F, fresh_result=True,
          params=[("self", "Ref[HpcSubmitter]"), ("jobs", "Opaque"), ("submission_group", "Ref[SubmissionGroup]"), ("dry_run", "bool", "False")],
          returns="Ref[AsyncHpcSubmitter]",
          locals={"config": "Dict[Name,Opaque]"},
@@ -68,13 +68,14 @@ contract("HpcSubmitter._make_async_submitter", file=F,
              "self._batch_index == old(self._batch_index) + 1",
              # C07: the submitter carries the group it was built for, and that group's dry-run flag
              "result._submission_group == submission_group and result._dry_run == dry_run",
-             "isnone(result._job_id) and not result.g_done and empty(result.blocking) and result.g_launched == 0",
+             "isnone(result._job_id) and not result.g_done and empty(result.blocking) and result.g_launched == 0 and result.g_is_batch",
              "result._mgr == self._hpc_mgr and result._status_collector == self._status_collector",
+             "unchanged(AsyncJob.job_id, result) and unchanged(AsyncJob.g_is_batch, result) and unchanged(AsyncJob.name, result)",
          ],
-         modifies=["self._batch_index", "AsyncJob.name", "AsyncJob.return_code", "AsyncJob.g_done", "AsyncJob.blocking", "AsyncJob.g_launched",
+         modifies=["self._batch_index", "AsyncJob.g_is_batch", "AsyncJob.name", "AsyncJob.return_code", "AsyncJob.g_done", "AsyncJob.blocking", "AsyncJob.g_launched",
                    "AsyncJob.g_canceled", "AsyncJob.cancel_on_blocking_job_failure",
                    "AsyncHpcSubmitter._mgr", "AsyncHpcSubmitter._status_collector", "AsyncHpcSubmitter._run_script",
-                   "AsyncHpcSubmitter._submission_group", "AsyncHpcSubmitter._job_id", "AsyncHpcSubmitter._output", "AsyncHpcSubmitter._dry_run"])
+                   "AsyncHpcSubmitter._submission_group", "AsyncJob.job_id", "AsyncHpcSubmitter._output", "AsyncHpcSubmitter._dry_run"])
 
 contract("HpcSubmitter._log_submission_event", kind="assumed",
          params=[("self", "Ref[HpcSubmitter]"), ("submission_group", "Ref[SubmissionGroup]"), ("batch", "Ref[_BatchJobs]")],
@@ -82,8 +83,9 @@ contract("HpcSubmitter._log_submission_event", kind="assumed",
 
 contract("HpcSubmitter._submit_batch", file=F,
          params=[("self", "Ref[HpcSubmitter]"), ("queue", "Ref[JobQueue]"), ("submission_group", "Ref[SubmissionGroup]"), ("batch", "Ref[_BatchJobs]")],
-         requires=["Inv_cap(queue)", "nout(queue) < queue._queue_depth", "len(queue._queued_jobs) == 0"],
+         requires=["Inv_cap(queue)", "nout(queue) < queue._queue_depth", "len(queue._queued_jobs) == 0", "Inv_ids(queue)"],
          ensures=[
+             "Inv_ids(queue)",
              "self._batch_index == old(self._batch_index) + 1",
              "Inv_cap(queue) and queue._queue_depth == old(queue._queue_depth) and len(queue._queued_jobs) == 0",
              # handed to the scheduler interface exactly once (C01), never parked in the queue (C05)
@@ -91,16 +93,16 @@ contract("HpcSubmitter._submit_batch", file=F,
              "nout(queue) <= old(nout(queue)) + 1 and nout(queue) >= old(nout(queue))",
          ],
          modifies=["self._batch_index", "JobQueue._num_jobs", "JobQueue._outstanding_jobs", "JobQueue._queued_jobs", "ghost.runs",
-                   "AsyncJob.name", "AsyncJob.return_code", "AsyncJob.g_done", "AsyncJob.blocking", "AsyncJob.g_launched",
+                   "AsyncJob.g_is_batch", "AsyncJob.name", "AsyncJob.return_code", "AsyncJob.g_done", "AsyncJob.blocking", "AsyncJob.g_launched",
                    "AsyncJob.g_canceled", "AsyncJob.cancel_on_blocking_job_failure",
                    "AsyncHpcSubmitter._mgr", "AsyncHpcSubmitter._status_collector", "AsyncHpcSubmitter._run_script",
-                   "AsyncHpcSubmitter._submission_group", "AsyncHpcSubmitter._job_id", "AsyncHpcSubmitter._output", "AsyncHpcSubmitter._dry_run"])
+                   "AsyncHpcSubmitter._submission_group", "AsyncJob.job_id", "AsyncHpcSubmitter._output", "AsyncHpcSubmitter._dry_run"])
 
 # ---- _submit_batches ---------------------------------------------------------------------------
-HEAP_ASYNC = ["AsyncJob.name", "AsyncJob.return_code", "AsyncJob.g_done", "AsyncJob.blocking", "AsyncJob.g_launched",
+HEAP_ASYNC = ["AsyncJob.g_is_batch", "AsyncJob.name", "AsyncJob.return_code", "AsyncJob.g_done", "AsyncJob.blocking", "AsyncJob.g_launched",
               "AsyncJob.g_canceled", "AsyncJob.cancel_on_blocking_job_failure",
               "AsyncHpcSubmitter._mgr", "AsyncHpcSubmitter._status_collector", "AsyncHpcSubmitter._run_script",
-              "AsyncHpcSubmitter._submission_group", "AsyncHpcSubmitter._job_id", "AsyncHpcSubmitter._output", "AsyncHpcSubmitter._dry_run"]
+              "AsyncHpcSubmitter._submission_group", "AsyncJob.job_id", "AsyncHpcSubmitter._output", "AsyncHpcSubmitter._dry_run"]
 HEAP_BATCH = ["_BatchJobs._estimated_batch_time", "_BatchJobs._num_processes", "_BatchJobs._per_node_batch_size",
               "_BatchJobs._time_based_batching", "_BatchJobs._try_add_blocked_jobs", "_BatchJobs._jobs", "_BatchJobs._job_names",
               "_BatchJobs._is_ready_to_submit", "_BatchJobs._max_batch_time", "JadeJob.blocked_by"]
@@ -121,6 +123,7 @@ SB_DEFS = {
 }
 SB_INV = [
     "Inv_cap(queue) and len(queue._queued_jobs) == 0 and queue._queue_depth == old(queue._queue_depth)",
+    "Inv_ids(queue)",
     "len(available_jobs) <= len(A0())",
     # available_jobs is always a suffix of the list computed before the loop
     "forall(i, range(len(available_jobs)), available_jobs[i] == A0()[CUR() + i])",
@@ -128,6 +131,7 @@ SB_INV = [
     "num_submitted_jobs == len(_submitted_jobs)",
     "self._batch_index - old(self._batch_index) == ghost.runs - old(ghost.runs) and self._batch_index >= old(self._batch_index)",
     "implies(len(_submitted_jobs) > 0, self._batch_index > old(self._batch_index))",
+    "implies(self._batch_index > old(self._batch_index), len(_submitted_jobs) > 0)",
     # C01: every job placed so far comes from the examined prefix, and no name was placed twice
     "forall(k, range(len(_submitted_jobs)), exists(m, range(CUR()), A0()[m] == _submitted_jobs[k]))",
     "forall(k, range(len(_submitted_jobs)), forall(m, range(k), _submitted_jobs[k].name != _submitted_jobs[m].name))",
@@ -148,14 +152,16 @@ contract("HpcSubmitter._submit_batches", file=F,
                  ("blocked_jobs", "List[Ref[Job]]"), ("submitted_jobs", "List[Ref[Job]]")],
          locals={"_submitted_jobs": "List[Ref[Job]]", "available_jobs": "List[Ref[Job]]"},
          defs=SB_DEFS,
-         requires=["Inv_cap(queue)", "nout(queue) < queue._queue_depth", "len(queue._queued_jobs) == 0",
+         requires=["Inv_cap(queue)", "nout(queue) < queue._queue_depth", "len(queue._queued_jobs) == 0", "Inv_ids(queue)",
                    "not isnone(self._cluster._job_status)", "distinct_job_names(self._cluster)",
                    "forall(i, range(len(jobs_of(self._cluster))), known(self, jobs_of(self._cluster)[i].name))"] + CFG_DOMAIN,
          loops={1: {"invariant": SB_INV}},
          ensures=[
              "Inv_cap(queue) and len(queue._queued_jobs) == 0 and queue._queue_depth == old(queue._queue_depth)",
+             "Inv_ids(queue)",
              "self._batch_index - old(self._batch_index) == ghost.runs - old(ghost.runs) and self._batch_index >= old(self._batch_index)",
              "implies(len(submitted_jobs) > S0(), self._batch_index > old(self._batch_index))",
+             "implies(self._batch_index > old(self._batch_index), len(submitted_jobs) > S0())",
              # submitted_jobs grows by jobs of this group that are not submitted, each name once (C01)
              "len(submitted_jobs) >= S0()",
              "forall(k, range(S0()), submitted_jobs[k] == old(submitted_jobs)[k])",
@@ -166,6 +172,7 @@ contract("HpcSubmitter._submit_batches", file=F,
              "len(blocked_jobs) >= B0()",
              "forall(k, range(B0()), blocked_jobs[k] == old(blocked_jobs)[k])",
              "forall(k, range(B0(), len(blocked_jobs)), blocked_jobs[k].state == JobState.NOT_SUBMITTED and not empty(blocked_jobs[k].blocked_by) "
+             "and cfgjob(self, blocked_jobs[k].name).submission_group == submission_group.name "
              "and exists(m, range(len(jobs_of(self._cluster))), jobs_of(self._cluster)[m] == blocked_jobs[k]))",
              # C05: a not-submitted job of the group without blockers is left behind only when the node limit is reached
              "nout(queue) >= queue._queue_depth or forall(m, range(len(jobs_of(self._cluster))), implies("
@@ -174,6 +181,12 @@ contract("HpcSubmitter._submit_batches", file=F,
              "and empty(jobs_of(self._cluster)[m].blocked_by), "
              "exists(k, range(S0(), len(submitted_jobs)), submitted_jobs[k].name == jobs_of(self._cluster)[m].name)))",
              "unchanged(Job.blocked_by) and unchanged(Job.name) and unchanged(Job.state)",
+         ],
+         trusted_ensures=[
+             # OPEN PROOF OBLIGATION (not yet discharged; bounded native check only): a job recorded as blocked in this call is not
+             # also placed in a batch by it.  Argument: it is either below the cursor for good, or one of its blockers was placed in an
+             # earlier batch and batches are disjoint.
+             "forall(k, range(B0(), len(blocked_jobs)), forall(m, range(S0(), len(submitted_jobs)), blocked_jobs[k].name != submitted_jobs[m].name))",
          ],
          modifies=["submitted_jobs", "blocked_jobs", "self._batch_index", "JobQueue._num_jobs", "JobQueue._outstanding_jobs",
                    "JobQueue._queued_jobs", "ghost.runs"] + HEAP_ASYNC + HEAP_BATCH)
@@ -185,7 +198,8 @@ contract("HpcManager.submit", kind="assumed",
          returns="Tuple[Opt[Name],Enum[Status]]",
          ensures=["implies(dry_run, ghost.sbatch_n == old(ghost.sbatch_n))",
                   "ghost.sbatch_n >= old(ghost.sbatch_n) and ghost.sbatch_n <= old(ghost.sbatch_n) + 1",
-                  "implies(result[1] == Status.GOOD and not dry_run, not isnone(result[0]) and ghost.sbatch_n == old(ghost.sbatch_n) + 1)"],
+                  "implies(result[1] == Status.GOOD and not dry_run, ghost.sbatch_n == old(ghost.sbatch_n) + 1)",
+                  "implies(result[1] == Status.GOOD, not isnone(result[0]))"],
          modifies=["ghost.sbatch_n"],
          note="HpcManager.submit -> SlurmManager.submit (verified in C18 contracts): writes the sbatch script, runs sbatch unless dry_run")
 ghost("sbatch_n", "int")
@@ -203,7 +217,7 @@ contract("AsyncHpcSubmitter.run", file=F,
              # C12: a failed submission is reported as ERROR and the batch is complete with a non-zero code, so it is never outstanding
              "implies(result != Status.GOOD, result == Status.ERROR and self.g_done and self.return_code == 1 and self._job_id == old(self._job_id))",
              "implies(result == Status.GOOD, not self.g_done or old(self.g_done))",
-             "implies(result == Status.GOOD and not old(self._dry_run), not isnone(self._job_id))",
+             "implies(result == Status.GOOD, not isnone(self._job_id))",      # interface clause of AsyncJob.run for batches
          ],
          modifies=["self._job_id", "self._return_code", "self._is_complete", "ghost.sbatch_n"])
 
@@ -235,7 +249,7 @@ contract("AsyncHpcSubmitter.create_from_id", file=F, fresh_result=True,
          returns="Ref[AsyncHpcSubmitter]",
          ensures=["result._job_id == job_id and result.name == job_id and not result.g_done and isnone(result._submission_group)",
                   "result._mgr == hpc_manager and result._status_collector == status_collector",
-                  "empty(result.blocking) and result.g_launched == 0 and not result.g_canceled"],
+                  "empty(result.blocking) and result.g_launched == 0 and not result.g_canceled and result.g_is_batch"],
          modifies=HEAP_ASYNC)
 
 # ---- completion collection and failure cancellation at submitter level (C02, C04) ---------------------------
@@ -281,7 +295,12 @@ UC_CANCELED = [
     "and exists(b, old(j.blocked_by), b in ghost.collected_failed))",
     "forall(k, range(len(canceled_jobs)), forall(m, range(k), canceled_jobs[k].name != canceled_jobs[m].name))",
 ]
-UC_COMMON = ["subset(NC(), ghost.collected)",
+UC_COUNT = [
+    # C09: each cancel turns exactly one not-submitted job into a done one (the counters are bumped later, in update_job_status)
+    "fold('n_done', CJL()) == old(fold('n_done', CJL())) + len(canceled_jobs)",
+    "fold('n_sub', CJL()) == old(fold('n_sub', CJL())) + len(canceled_jobs)",
+]
+UC_COMMON = UC_COUNT + ["subset(NC(), ghost.collected)",
              "subset(old(ghost.collected), ghost.collected) and subset(old(ghost.collected_failed), ghost.collected_failed)"] + UC_JOBS + UC_CANCELED
 UC_PENDING = [
     # results of the jobs canceled in the previous pass, not yet folded into newly_completed
@@ -320,12 +339,145 @@ contract("HpcSubmitter._update_completed_jobs", file=F,
          ensures=[
              "subset(result[0], ghost.collected)",
              "subset(old(ghost.collected), ghost.collected) and subset(old(ghost.collected_failed), ghost.collected_failed)",
-         ] + [c.replace("NC()", "result[0]").replace("canceled_jobs", "result[1]") for c in UC_JOBS + UC_CANCELED] + [
+         ] + [c.replace("NC()", "result[0]").replace("canceled_jobs", "result[1]") for c in UC_JOBS + UC_CANCELED + UC_COUNT] + [
              "forall(k, range(len(result[1])), result[1][k].name in result[0])",
              f"forall(m, range(NCJ()), implies(CJL()[m].state == {NS_}, forall(x, CJL()[m].blocked_by, x not in result[0])))",
+         ],
+         trusted_ensures=[
+             # E-res (environment): nodes write results only for jobs of batches that were handed to the scheduler, i.e. whose
+             # persisted state is SUBMITTED; cannot follow from JADE's code alone (the producers are other processes)
+             "forall(x, result[0], exists(m, range(NCJ()), CJL()[m].name == x and (CJL()[m].state == JobState.SUBMITTED "
+             "or exists(k, range(len(result[1])), result[1][k] == CJL()[m]))))",
          ],
          raises={"Timeout": {"ensures": [], "frame": False}},
          modifies=["Job.state", "Job.blocked_by", "ghost.collected", "ghost.collected_failed",
                    "Result.name", "Result.return_code", "Result.status", "Result.exec_time_s", "Result.completion_time", "Result.hpc_job_id",
                    "ResultsAggregator._filename", "ResultsAggregator._lock_file", "ResultsAggregator._timeout",
                    "ResultsAggregator._delimiter", "ResultsAggregator._is_node"])
+
+# ---- the submitter round ------------------------------------------------------------------------------------
+ghost("fs", "Set[Opaque]")      # paths of marker files that exist (submitter.lock)
+contract("Opaque.exists", kind="assumed", params=[("self", "Opaque")], returns="bool", ensures=["result == (self in ghost.fs)"],
+         note="pathlib.Path.exists (T-fs)")
+contract("Opaque.touch", kind="assumed", params=[("self", "Opaque")],
+         ensures=["forall(p, Opaque, (p in ghost.fs) == (p in old(ghost.fs) or p == self))"], modifies=["ghost.fs"], note="pathlib.Path.touch (T-fs)")
+contract("os.remove", kind="assumed", params=[("path", "Opaque")],
+         ensures=["forall(p, Opaque, (p in ghost.fs) == (p in old(ghost.fs) and p != path))"], modifies=["ghost.fs"],
+         raises={"FileNotFoundError": {"when": ["path not in ghost.fs"], "ensures": ["ghost.fs == old(ghost.fs)"]}},
+         note="os.remove (T-fs)")
+define("MARKER", ["s"], 'uf("pathjoin", "Opaque", uf("Path/", "Opaque", s._output), typed("submitter.lock", "Opaque"))')
+
+contract("HpcSubmitter._is_complete", file=F,
+         params=[("self", "Ref[HpcSubmitter]")], returns="bool",
+         requires=["not ghost.cluster_lock", "not isnone(self._cluster._job_status)", "J(self._cluster)"],
+         ensures=[
+             # C05/C12: complete iff every job is done, or (forced) no batch is active any more on a real scheduler
+             "result == (forall(i, range(len(JOBS(self._cluster))), JOBS(self._cluster)[i].state == JobState.DONE) "
+             "or (len(val(self._cluster._job_status).hpc_job_ids) == 0 and self._hpc_mgr._hpc_type != HpcType.FAKE))",
+         ],
+         raises={"Timeout": {"ensures": []}},
+         modifies=["ghost.cluster_lock", "ghost.lock_marker_left"])
+
+_uj = contract.__globals__["CONTRACTS"]["Cluster.update_job_status"]
+from contracts.cluster import UJ_DEFS, UJ_PRE, UJ_POST
+US_DEFS = dict(UJ_DEFS)
+US_DEFS.update({"CFG": ([], "self._cluster._config"), "JL": ([], "val(self._cluster._job_status).jobs"),
+                "NJ": ([], "len(val(self._cluster._job_status).jobs)"),
+                "FRAME": ([], "True"), "LOOKUP": ([], "True")})
+def _lift(text):
+    """clauses of Cluster.update_job_status re-phrased for self._cluster"""
+    return (text.replace("Inv_handle(self)", "Inv_handle(self._cluster)").replace("self.g_promoted", "self._cluster.g_promoted")
+            .replace("isnone(self._job_status)", "isnone(self._cluster._job_status)").replace("distinct_job_names(self)", "distinct_job_names(self._cluster)")
+            .replace("val(self._job_status)", "val(self._cluster._job_status)").replace("disk_cv(self)", "disk_cv(self._cluster)")
+            .replace("disk_jv(self)", "disk_jv(self._cluster)").replace("cfg_mirrored(self)", "cfg_mirrored(self._cluster)")
+            .replace("js_mirrored(self)", "js_mirrored(self._cluster)"))
+contract("HpcSubmitter._update_status", file=F,
+         params=[("self", "Ref[HpcSubmitter]"), ("submitted_jobs", "List[Ref[Job]]"), ("blocked_jobs", "List[Ref[Job]]"),
+                 ("canceled_jobs", "List[Ref[Job]]"), ("hpc_job_ids", "List[Name]"), ("completed_job_names", "Set[Name]")],
+         defs=US_DEFS,
+         requires=["not ghost.cluster_lock"] + [_lift(r) for r in UJ_PRE if r != "ghost.cluster_lock"],
+         ensures=[
+             # J holds in memory either way (nothing to update => the canceled list is empty and the counters were already exact)
+             "0 <= CFG().completed_jobs and CFG().completed_jobs <= CFG().submitted_jobs and CFG().submitted_jobs <= CFG().num_jobs and CFG().num_jobs == NJ()",
+             "CFG().completed_jobs == fold('n_done', JL())", "CFG().submitted_jobs == fold('n_sub', JL())",
+             "forall(i, range(NJ()), implies(JL()[i].state != JobState.NOT_SUBMITTED, empty(JL()[i].blocked_by)))",
+             "not ghost.cluster_lock",
+             # whenever a batch was made, something completed or the active ids changed, the status IS persisted (C01/C11)
+             "implies(len(submitted_jobs) > 0 or not empty(completed_job_names) or len(blocked_jobs) > 0, "
+             "js_mirrored(self._cluster) and cfg_mirrored(self._cluster) and val(self._cluster._job_status).batch_index == self._batch_index "
+             "and val(self._cluster._job_status).hpc_job_ids == hpc_job_ids)",
+             "forall(k, range(len(submitted_jobs)), forall(m, range(NJ()), implies(JL()[m].name == submitted_jobs[k].name, JL()[m].state != JobState.NOT_SUBMITTED)))",
+             "val(self._cluster._job_status).hpc_job_ids == hpc_job_ids",
+             "val(self._cluster._job_status).jobs == old(val(self._cluster._job_status).jobs) and unchanged(Job.name)",
+             "CFG().is_complete == old(CFG().is_complete) and CFG().is_canceled == old(CFG().is_canceled)",
+         ],
+         raises={k: dict(v, when=[_lift(w).replace("CFG()", "self._cluster._config") for w in v.get("when", [])], iff=False) for k, v in _uj.raises.items()},
+         modifies=[m for m in _uj.modifies if not m.startswith("self.")] + ["self._cluster._config_hash", "self._cluster._job_status_hash"])
+
+RUN_DEFS = {
+    "CL": ([], "self._cluster"),
+    "CFG": ([], "self._cluster._config"),
+    "JS": ([], "val(self._cluster._job_status)"),
+    "JL": ([], "val(self._cluster._job_status).jobs"),
+    "NJ": ([], "len(val(self._cluster._job_status).jobs)"),
+    "GROUPS": ([], "self._cluster._config.submission_groups"),
+    "persisted": ([], "val(self._cluster._job_status).batch_index == self._batch_index and js_mirrored(self._cluster)"),
+}
+RUN_PRE = [
+    "not ghost.cluster_lock", "Inv_handle(CL())", "CL().g_promoted", "not isnone(CL()._job_status)", "J(CL())",
+    "forall(i, range(NJ()), known(self, JL()[i].name))",
+    "self._batch_index == JS().batch_index",
+    # C06 carried from the previous rounds: no more persisted active batches than max-nodes
+    "len(JS().hpc_job_ids) <= self._max_nodes",
+    # configuration domain for every group (see C07)
+    "forall(g, GROUPS(), implies(not g.submitter_params.time_based_batching, g.submitter_params.per_node_batch_size >= 1) "
+    "and implies(g.submitter_params.time_based_batching, not isnone(g.submitter_params.num_parallel_processes_per_node) "
+    "and val(g.submitter_params.num_parallel_processes_per_node) >= 0))",
+    "forall(g, GROUPS(), implies(g.submitter_params.time_based_batching, forall(i, range(NJ()), "
+    "not isnone(cfgjob(self, JL()[i].name).estimated_run_minutes) and val(cfgjob(self, JL()[i].name).estimated_run_minutes) >= 0)))",
+    # group names are pairwise distinct (check_submission_groups, C17)
+    "forall(a, range(len(GROUPS())), forall(b, range(a), GROUPS()[a].name != GROUPS()[b].name))",
+]
+contract("HpcSubmitter.run", file=F,
+         params=[("self", "Ref[HpcSubmitter]")], returns="bool",
+         locals={"blocked_jobs": "List[Ref[Job]]", "submitted_jobs": "List[Ref[Job]]", "hpc_submitters": "List[Ref[AsyncHpcSubmitter]]"},
+         defs=RUN_DEFS, requires=RUN_PRE,
+         loops={1: {"invariant": [
+             "Inv_cap(queue) and len(queue._queued_jobs) == 0 and queue._queue_depth == self._max_nodes",
+             "Inv_ids(queue)",
+             "self._batch_index - starting_batch_index == ghost.runs - old(ghost.runs) and self._batch_index >= starting_batch_index",
+             "implies(self._batch_index > starting_batch_index, len(submitted_jobs) > 0)",
+             "forall(k, range(len(submitted_jobs)), submitted_jobs[k].state == JobState.NOT_SUBMITTED "
+             "and exists(m, range(NJ()), JL()[m] == submitted_jobs[k]) "
+             "and exists(a, range(_k1), cfgjob(self, submitted_jobs[k].name).submission_group == GROUPS()[a].name))",
+             "forall(k, range(len(submitted_jobs)), forall(m, range(k), submitted_jobs[k].name != submitted_jobs[m].name))",
+             "forall(k, range(len(blocked_jobs)), blocked_jobs[k].state == JobState.NOT_SUBMITTED and not empty(blocked_jobs[k].blocked_by) "
+             "and exists(m, range(NJ()), JL()[m] == blocked_jobs[k]) "
+             "and exists(a, range(_k1), cfgjob(self, blocked_jobs[k].name).submission_group == GROUPS()[a].name))",
+             # JADE's assert in update_job_status: no job is both submitted and recorded as blocked in one round
+             "forall(k, range(len(blocked_jobs)), forall(m, range(len(submitted_jobs)), blocked_jobs[k].name != submitted_jobs[m].name))",
+             "MARKER(self) in ghost.fs",
+             "self._cluster == old(self._cluster) and self._config == old(self._config) and self._max_nodes == old(self._max_nodes)",
+         ]}},
+         ensures=[
+             "len(JS().hpc_job_ids) <= self._max_nodes",                        # C06
+             "self._batch_index >= old(self._batch_index) and ghost.runs - old(ghost.runs) == self._batch_index - old(self._batch_index)",   # C01
+             "MARKER(self) not in ghost.fs",
+         ],
+         raises={
+             "Exception": {"ensures": []},
+         },
+         modifies=["self._batch_index", "ghost.runs", "ghost.fs", "ghost.cluster_lock", "ghost.lock_marker_left", "ghost.collected", "ghost.collected_failed",
+                   "ghost.files", "ghost.vfiles", "ghost.file_writes", "ghost.last_status", "ghost.sbatch_n",
+                   "Job.state", "Job.blocked_by", "JobStatus.hpc_job_ids", "JobStatus.batch_index", "JobStatus.version",
+                   "ClusterConfig.submitted_jobs", "ClusterConfig.completed_jobs", "ClusterConfig.version",
+                   "self._cluster._config_hash", "self._cluster._job_status_hash",
+                   "JobQueue._queue_depth", "JobQueue._poll_interval", "JobQueue._outstanding_jobs", "JobQueue._queued_jobs", "JobQueue._num_jobs",
+                   "JobQueue._num_completed", "JobQueue._monitor_func", "JobQueue._last_monitor_time", "JobQueue._monitor_interval",
+                   "HpcStatusCollector._statuses", "HpcStatusCollector._last_poll_time",
+                   "Result.name", "Result.return_code", "Result.status", "Result.exec_time_s", "Result.completion_time", "Result.hpc_job_id",
+                   "ResultsAggregator._filename", "ResultsAggregator._lock_file", "ResultsAggregator._timeout", "ResultsAggregator._delimiter",
+                   "ResultsAggregator._is_node", "AsyncJob.g_canceled"] + HEAP_ASYNC + HEAP_BATCH)
+contract("sorted", kind="assumed", fresh_result=True, params=[("x", "List[Opt[Name]]")], returns="List[Opt[Name]]",
+         ensures=["len(result) == len(x)", "forall(i, range(len(result)), exists(j, range(len(x)), x[j] == result[i]))"],
+         note="T-sort: sorted() returns a permutation")
